@@ -294,7 +294,8 @@ func isValidSplit(s Type, exp *SplitExp, pipeline *Pipeline, ast *Ast) error {
 			}
 		}
 	case *MapExp:
-		for i, subexp := range inner.Value {
+		for _, i := range sortedKeys(inner.Value) {
+			subexp := inner.Value[i]
 			if err := s.IsValidExpression(subexp, pipeline, ast); err != nil {
 				errs = append(errs, &IncompatibleTypeError{
 					Message: fmt.Sprintf("split key %s", i),
